@@ -110,6 +110,7 @@ type World struct {
 	tickJump   int64
 	tickFired  bool
 	tickInside bool
+	reapplies  int
 	// GateStoreGet: MemStore.Get is a scheduler gate (relaxed-locking schedules only)
 	GateStoreGet bool
 	// CorruptGzip: cacheable answers of the scripted upstream carry a gzip body that does not decode
@@ -152,7 +153,7 @@ var gatePoints = map[string]bool{
 	"lookup.lock": true, "get.lock": true, "get.recv": true, "get.woken": true, "get.read2": true,
 	"age.lock": true, "cab.lock": true, "cab.send": true, "cab.save": true,
 	"hfp.lock": true, "hfp.send": true, "hfp.save": true,
-	"store.set": true, "purge.lock": true, "purge.fence": true, "purge.delete": true, "req.end": true,
+	"store.set": true, "store.get": true, "purge.lock": true, "purge.fence": true, "purge.delete": true, "req.end": true,
 	"next": true, "upstream": true,
 }
 
@@ -302,7 +303,17 @@ func (w *World) EmitResident() {
 }
 
 // Reapply applies the unchanged cache configuration again, as every configuration update does
-func (w *World) Reapply() { cache.ResetDispatchers(w.cacheConfigs()) }
+// (every second time with another hit-for-pass period: a cache that exists is kept as it is, period included)
+func (w *World) Reapply() {
+	ccs := w.cacheConfigs()
+	w.reapplies++
+	if w.reapplies%2 == 0 {
+		for i := range ccs {
+			ccs[i].HitForPass = "777s"
+		}
+	}
+	cache.ResetDispatchers(ccs)
+}
 
 func (w *World) restartDispatchers() {
 	cache.ResetDispatchers(nil)
@@ -910,6 +921,16 @@ func (w *World) upstreamHandler(rw http.ResponseWriter, req *http.Request) {
 	}
 	if out.Kind == "" {
 		out.Kind = "uncacheable"
+	}
+	if out.Kind == "panic" {
+		// the origin answers, but the handler chain of pike panics on the way back (harness middleware): for the
+		// cache this fetch ends without a response
+		w.mu.Lock()
+		w.emitLocked(Event{"op": "UpEnd", "r": ri.Rid, "hasResp": false, "ttl": 0})
+		w.mu.Unlock()
+		rw.Header().Set("Cache-Control", "no-cache")
+		rw.WriteHeader(200)
+		return
 	}
 	if out.Kind == "timeout" {
 		// the origin stays silent and the proxy's timer fires
